@@ -241,9 +241,14 @@ def run(chk, only=None):
             chk.extra["selftest_renumbered"] = "fresh expression parser vs the same tables with states permuted and productions renumbered: bisimilar (%d pairs)" % res.distinct
         if "control" in results:
             res = results["control"]
-            if "MatchDefaultError" not in res.invariant_violated:
+            if "MatchDefaultError" in res.invariant_violated:
+                chk.extra["selftest_negative_control"] = "corrupting the default error of the highest-numbered state is detected (MatchDefaultError)"
+            elif chk.violations:
+                # the tables under test already differ from the shipped ones (reported above): the control, which corrupts a copy
+                # of them, says nothing in that situation and must not turn the verdict into a machinery failure
+                chk.extra["selftest_negative_control"] = "not evaluated: the real tables already fail the bisimulation"
+            else:
                 raise MachineryError("negative control (default error of the last state altered) was not detected by LRBisim")
-            chk.extra["selftest_negative_control"] = "corrupting the default error of the highest-numbered state is detected (MatchDefaultError)"
 
         if thorough and want("sentences") and real["fresh_module"] is not None:
             _sentence_crosscheck(chk, sc, real)
